@@ -278,7 +278,7 @@ func runGxz(c *hx.Ctx, bin string, sc gxzScenario, plan ptr.Plan) (*gxzRun, erro
 		}
 		creat := e.Name == "openat" && e.Flags&(syscall.O_CREAT|syscall.O_WRONLY|syscall.O_RDWR|syscall.O_TRUNC) != 0
 		fmt.Fprintf(&tr, `{"ev":"Sys","name":"%s","a":"%s","b":"%s","ret":%d,"creat":%v,"eofSeen":%v}`+"\n", e.Name, a, bsym, e.Ret, creat, eof)
-		if (plan.FailAt != 0 && e.J == plan.FailAt) || (plan.KillAt != 0 && e.J == plan.KillAt) {
+		if (plan.FailAt != 0 && e.J == plan.FailAt) || (plan.KillAt != 0 && e.J == plan.KillAt) || (plan.SignalAt != 0 && e.J == plan.SignalAt) {
 			r.at = e.Name + ":" + a
 		}
 	}
@@ -300,6 +300,8 @@ func judgeGxz(c *hx.Ctx, r *gxzRun) {
 		phase = "kill"
 	} else if r.plan.FailAt > 0 {
 		phase = "fault"
+	} else if r.plan.SignalAt > 0 {
+		phase = "sigint"
 	}
 	nameClass := "known-suffix"
 	if sc.Cfg.Alias {
@@ -320,6 +322,14 @@ func judgeGxz(c *hx.Ctx, r *gxzRun) {
 		return
 	}
 	if r.res.Killed {
+		return
+	}
+	if r.plan.SignalAt > 0 {
+		// An interrupt is handled asynchronously: only the "at every instant" clauses are judged,
+		// plus gxz's own promise that its handler (exit status 7) removes the temporary file.
+		if r.res.Exit == 7 && r.tmp != "absent" {
+			c.Violation(sig("temp-file-left-after-interrupt"), fmt.Sprintf("%s [SIGINT at %s]: exit 7 but the temporary file remains", sc, r.at), replay)
+		}
 		return
 	}
 	if r.tmp != "absent" && !(r.plan.FailAt > 0 && r.at == "unlinkat:TMP") { // nothing can remove a file whose removal fails
@@ -453,7 +463,11 @@ func C10(c *hx.Ctx) {
 			case "write", "renameat", "unlinkat", "close", "openat":
 				mut = 1
 			}
-			for _, plan := range []ptr.Plan{{KillAt: j}, {FailAt: j, Errno: errnoFor(base.res.Events[j-1].Name)}} {
+			plans := []ptr.Plan{{KillAt: j}, {FailAt: j, Errno: errnoFor(base.res.Events[j-1].Name)}}
+			if c.Thorough() || (i+j)%3 == 0 {
+				plans = append(plans, ptr.Plan{SignalAt: j, Signal: syscall.SIGINT})
+			}
+			for _, plan := range plans {
 				r, err := runGxz(c, bin, sc, plan)
 				if err != nil {
 					c.Inconclusive("ptrace run failed: %v", err)
@@ -461,7 +475,7 @@ func C10(c *hx.Ctx) {
 				}
 				c.Count(1, mut)
 				judgeGxz(c, r)
-				if (i+j)%5 == 0 {
+				if (i+j)%5 == 0 && plan.SignalAt == 0 {
 					record(r)
 				}
 			}
